@@ -3,6 +3,8 @@ CONSTANTS
   MaxItems = 8
   WireWeight = 30
   WithAC = FALSE
+  Randomised = TRUE
+  MaxLabels = 3
   MinItems = 4
   Syms = {"R", "G", "Z", "C", "L", "lamp", "sw_open", "sw_closed", "lline", "V", "I", "ACV", "ACI", "CV", "CI", "RectV", "TriV", "SawV", "RectI", "TriI", "SawI"}
 INVARIANT Check
